@@ -151,9 +151,15 @@ CanRecvDisc(o) ==
 (* Could the operation make progress (complete or move a value) now?  Used  *)
 (* for the quiescence obligations of C05 / C06.                            *)
 (***************************************************************************)
+\* (what a receive MUST be able to report, as opposed to what it MAY report: after the one value of a
+\* oneshot was taken a receive may say Disconnected at once, but it is only obliged to once no sender is left)
+MustRecvDisc(o) ==
+  /\ IsRecv(o) /\ pend[o].lin = "" /\ pend[o].got = <<>>
+  /\ \/ ReceiverRejected(o)
+     \/ ~Avail(pend[o].h) /\ NoSenderLeft
 Enabled(o) ==
   \/ CanSendOne(o) \/ CanSendClosed(o) \/ CanSendSent(o) \/ CanSendDone(o)
-  \/ CanRecvOne(o) \/ CanRecvDone(o) \/ CanRecvDisc(o)
+  \/ CanRecvOne(o) \/ CanRecvDone(o) \/ MustRecvDisc(o)
   \/ cfg.kind = "rv" /\ IsSend(o) /\ pend[o].lin = "" /\ pend[o].started /\ WaitingRecvs # {} /\ ~SenderRejected(o)
   \/ cfg.kind = "rv" /\ IsRecv(o) /\ pend[o].lin = "" /\ pend[o].started /\ WaitingSends # {} /\ ~ReceiverRejected(o)
 
